@@ -357,6 +357,7 @@ type rEnv struct {
 	useOld  bool
 	useHead bool
 	useEntry bool
+	headVars, entryVars map[string]Value // named locals as they were at the loop head / at loop entry
 	vars    map[string]Value // lets, spec params, function params, results
 	typs    map[string]types.Type
 	specs   map[string]*SpecFn
@@ -627,12 +628,32 @@ func (env *rEnv) eval(n *rNode) Value {
 			vars := copyVars(env.vars)
 			typs, specs, eng, pre := env.typs, env.specs, env.e, env.pre
 			head, entry, iterKey := env.head, env.entry, env.iterKey
+			headVars, entryVars := env.headVars, env.entryVars
+			// The fact speaks about the state in which it is assumed: it is evaluated in a snapshot of that state (maps
+			// and cells as they were then), never in the later state whose goal it is instantiated for; only the
+			// declarations and axiom instances the evaluation creates are carried over. A body that does not evaluate
+			// yields no fact (true), never `false`.
+			base := env.post.clone()
 			env.post.addInst(sort, func(s *State, t Term) Term {
-				sub := &rEnv{e: eng, pre: pre, post: s, vars: copyVars(vars), typs: typs, specs: specs, head: head, entry: entry, iterKey: iterKey}
+				snap := base.clone()
+				nd, np := len(snap.decls), len(snap.pc)
+				sub := &rEnv{e: eng, pre: pre, post: snap, vars: copyVars(vars), typs: typs, specs: specs, head: head, entry: entry, iterKey: iterKey, pol: -1, headVars: headVars, entryVars: entryVars}
 				sub.vars[name] = sym(t)
 				r := sub.term(body)
 				if sub.err != nil {
+					if os.Getenv("ROSVC_DEBUGRSL") != "" {
+						fmt.Fprintf(os.Stderr, "DEBUG assumed universal does not evaluate: %v\n", sub.err)
+					}
 					return TTrue
+				}
+				for _, d := range snap.decls[nd:] {
+					if f := strings.Fields(d); len(f) >= 2 && !s.declSet[f[1]] {
+						s.declSet[f[1]] = true
+						s.decls = append(s.decls, d)
+					}
+				}
+				for _, f := range snap.pc[np:] {
+					s.fact(f)
 				}
 				return r
 			})
@@ -805,6 +826,16 @@ func dbEq(a, b Ghost) Term {
 }
 
 func (env *rEnv) ident(name string) Value {
+	if env.useEntry && env.entryVars != nil {
+		if v, ok := env.entryVars[name]; ok {
+			return v
+		}
+	}
+	if env.useHead && env.headVars != nil {
+		if v, ok := env.headVars[name]; ok {
+			return v
+		}
+	}
 	if v, ok := env.vars[name]; ok {
 		return v
 	}
